@@ -1187,6 +1187,15 @@ func (env *LEnv) eval(ctx context.Context, v *LVal) (result *LVal) {
 	}
 	macroDepth := 0
 eval:
+	// The form about to be evaluated is the location of whatever ends its
+	// evaluation, a limit error raised before its first step included: left
+	// as the previous form set it, the register would name a form of an
+	// earlier Load when the limit is hit at the very start of this one.  (A
+	// form without a position, such as a macro expansion on its way back
+	// through the eval label, leaves the register alone until then.)
+	if v.source != nil {
+		env.loc = v.source
+	}
 	if lerr := env.checkLimits(ctx); lerr != nil {
 		return lerr
 	}
